@@ -138,10 +138,12 @@ End Phenotype.
 Definition grp_col (n : nat) (g : option (list Z)) : list (option Z) :=
   match g with Some l => map Some l | None => repeat None n end.
 
-(** the whole call: [None] when the scripted requests do not have the shape/order the model consumes *)
+(** the whole call: [None] when the scripted requests do not have the shape/order the model consumes.
+    [nrep_attr] is the stored nrep array (built by the setter from the nenv in force at that time); the loop is
+    zip(range(nenv), nrep_attr) with the nenv in force at the call. *)
 Definition phenotype (n t : nat) (taxa : option (list str)) (grp : option (list Z)) (gvm : list (list Q))
-    (nenv : nat) (nrep : nreparg) (sd_env sd_rep sd_err : list Q) (flat : list (list Q)) : option (list prow) :=
-  match parse_envs (firstn nenv (nrep_vec nenv nrep)) n t flat with
+    (nenv : nat) (nrep_attr : list nat) (sd_env sd_rep sd_err : list Q) (flat : list (list Q)) : option (list prow) :=
+  match parse_envs (firstn nenv nrep_attr) n t flat with
   | Some (ds, []) => Some (env_blocks (labels_or_auto "Taxon"%string n taxa) (grp_col n grp) gvm sd_env sd_rep sd_err 1%Z ds)
   | _ => None
   end.
